@@ -307,6 +307,10 @@ def edge_provenance(fn, sb, target, depth=0):
                             return False
                         continue
                 return False
+            elif x[0] == "call":
+                # a call result of unknown value: it may carry any variant, so the edge may stem from this definition
+                out.add(x[1])
+                continue
             else:
                 return False
         return True
@@ -1229,3 +1233,22 @@ def reachable_with_edges_removed(fn, start, avoid, removed):
             if (x, s2) not in removed:
                 st.append(s2)
     return seen
+
+
+def dominates_on_feasible_paths(fn, a, b):
+    """every execution that reaches block b has passed block a, counting out the paths that cannot be taken: a path that leaves a block
+    where a failure value (`None`, `Err(..)`, `Break(..)`) was just built and then takes the success edge of the test on that very value
+    (a helper's early `return None` merged with its success value in front of a `?`)"""
+    if fn.dominates(a, b):
+        return True
+    fail_bbs = {bb for bb, i, p, rv, s_ in fn.assigns() if rv["k"] == "aggregate" and rv.get("variant") in ("None", "Err", "Break") and not p[1]}
+    fail_bbs.discard(a)
+    plain = reachable_with_edges_removed(fn, 0, {a} | fail_bbs, set())
+    if b in plain:
+        return False
+    anyway = reachable_with_edges_removed(fn, 0, {a}, set())
+    for nb in fail_bbs & anyway:
+        inf = infeasible_edges_from(fn, nb, None)
+        if b in reachable_with_edges_removed(fn, nb, {a}, inf):
+            return False
+    return True
